@@ -146,6 +146,12 @@ Theorem C13_render_given_verbatim : forall c n c4 r n2,
 Proof. exact render_given_verbatim. Qed.
 Print Assumptions C13_render_given_verbatim.
 
+Example C13_render_given_verbatim_nonvacuous :
+  NoDup (keys (c_gdict witness_cont)) /\
+  exists c4 r n2, render_pure witness_cont 2 = Ok (c4, r, n2) /\ r_groups r = [(g_name, Some (Fresh 2))].
+Proof. exact render_twice_nonvacuous. Qed.
+Print Assumptions C13_render_given_verbatim_nonvacuous.
+
 (* render IS that pure function of (container, counter) *)
 Theorem C13_render_is_pure : forall c s,
   render c s = match render_pure c (s_next s) with
